@@ -260,3 +260,61 @@ def flow_replay(exe, cases, jobs=14, timeout=1800):
                         err_ = float("inf")
                     res.append((i, si, err_, scale, abs(t - tt)))
     return res, fails
+
+
+def stepctl_replay(exe, edges, one, cfgs, modes, jobs=14, timeout=1800):
+    """Replay histories of module StepCtl that contain Evolve actions (values in units of 2^-10 of a tick).
+    one: {(cfg, (sw, n, td)): SolverFlow edge} for the exact state after n whole ticks with all terms on.
+    Returns (results, fails): results = list of (edge index, verdict dict)."""
+    import concurrent.futures
+    U = 2.0 ** -10
+    chunks = [[] for _ in range(jobs)]
+    for i, e in enumerate(edges):
+        chunks[i % jobs].append((i, e))
+
+    def script(i, e):
+        cfg = cfgs[i % len(cfgs)]; mode = modes[(i // len(cfgs)) % len(modes)]
+        c = ["NEW 2 %d %d %d %d 0" % tuple(cfg)] + mode_cmds(2, mode, ticks=1) + ["SW 2 %d 1" % k for k in range(1, 6)]
+        c += ["CTL 2 hmax %r" % (1e6 * U), "CTL 2 hmin 0", "CTL 2 h %r" % U]
+        for kind, x in e["hist"]:
+            c.append(("EVOLVEX 2 %r" % (x * U)) if kind == "ev" else ("CTL 2 %s %r" % (kind, x * U)))
+        c += ["GETCTL 2", "DUMP 2 s%d" % i, "DESTROY 2"]
+        return c, cfg, mode
+
+    def work(chunk):
+        cmds = ["QUIET 1"]
+        meta = []
+        for i, e in chunk:
+            c, cfg, mode = script(i, e)
+            cmds += c; meta.append((i, e, cfg, mode))
+        rc, lines, err = run_script(exe, cmds, timeout=timeout)
+        return rc, lines, err, meta
+    results = []; fails = []
+    with concurrent.futures.ThreadPoolExecutor(max_workers=jobs) as ex:
+        for rc, lines, err, meta in ex.map(work, [c for c in chunks if c]):
+            if rc != 0 or any('"e":"Exception"' in l for l in lines):
+                fails.append("solver_drive rc=%s %s %s" % (rc, [l for l in lines if "Exception" in l][:1], err[-400:]))
+                continue
+            dumps = {tag: (t, vals) for tag, t, vals in parse_dumps(lines)}
+            seq = [l for l in lines if l.startswith("EVOLVEX ") or l.startswith("GETCTL ")]
+            pos = 0
+            for i, e, cfg, mode in meta:
+                nev = sum(1 for k, _ in e["hist"] if k == "ev")
+                part = seq[pos:pos + nev + 1]; pos += nev + 1
+                if len(part) != nev + 1 or not part[-1].startswith("GETCTL"):
+                    fails.append("step-control replay out of step at history %d" % i); break
+                refused = any(l.split()[1] == "1" for l in part[:-1])
+                g = [float(x) for x in part[-1].split()[1:]]
+                r = dict(refused=refused, mode=mode, cfg=cfg, ctl_ok=None, clock_ok=None, err=None, scale=None)
+                r["got_ctl"] = [g[0] / U, g[1] / U, g[2] / U]
+                r["ctl_ok"] = (g[0] * 2 / U == e["h2"] and g[1] * 2 / U == e["hmin2"] and g[2] * 2 / U == e["hmax2"])
+                if not refused:
+                    r["clock_ok"] = (abs(g[3] - e["el"] * U) <= 1e-9); r["t"] = g[3]     # "up to rounding": fixed-step runs add the steps up
+                    if e["el"] % 1024 == 0 and e["el"] > 0:
+                        ref = one[(tuple(cfg), (31, e["el"] // 1024, 0))]
+                        exp = expected_vector(ref)
+                        t, vals = dumps["s%d" % i]
+                        r["scale"] = max([1.0] + [abs(x) for x in exp])
+                        r["err"] = max([abs(a - b) for a, b in zip(vals, exp)]) if len(vals) == len(exp) and not any(x != x for x in vals) else float("inf")
+                results.append((i, r))
+    return results, fails
